@@ -1063,7 +1063,7 @@ def request(c):
     return 'eval %s %s' % (enc_str(f), env)
 
 
-def agree(c, impl_ans, model_ans):
+def _agree(c, impl_ans, model_ans):
     m = fx.parse_sexp(model_ans)
     if not (isinstance(m, list) and len(m) == 2):
         return False
@@ -1659,7 +1659,7 @@ def reunk_oracle(c, ans):
     return None
 
 
-def oracle(c, impl_ans):
+def _oracle(c, impl_ans):
     k = c['kind']
     rec = impl_ans['rec']
     f = formula_of(c)
@@ -1721,7 +1721,7 @@ def oracle(c, impl_ans):
     return None
 
 
-def nontrivial(c, impl_ans):
+def _nontrivial(c, impl_ans):
     k = c['kind']
     if k == 'unk':
         return impl_ans['reached'] == 1
@@ -1739,3 +1739,40 @@ def search(rng, ctx, disagreements):
     c2['scale'] = 6
     c2['tier'] = 'quick'
     return cases(rng, c2)
+
+
+# --------------------------------------------------------------------------- guarded entry points
+# The (var) cases bind values whose == raises or has no truth value. On the unchanged tree such a value is only ever looked at by
+# identity; if it shows up where this plugin compares records by ==, it has travelled to an evaluation it was never bound for
+# (another case's parser): that is reported as what it is instead of crashing the harness.
+
+def _foreign_eq(e):
+    t = str(e)
+    return 'EqRaises' in t or 'truth value of an array' in t
+
+
+def agree(c, impl_ans, model_ans):
+    try:
+        return _agree(c, impl_ans, model_ans)
+    except (TypeError, ValueError) as e:
+        if _foreign_eq(e):
+            return False
+        raise
+
+
+def oracle(c, impl_ans):
+    try:
+        return _oracle(c, impl_ans)
+    except (TypeError, ValueError) as e:
+        if _foreign_eq(e):
+            return 'a host value bound for another evaluation (a value with an == of its own) reached this one: comparing the outcome raised %s' % e
+        raise
+
+
+def nontrivial(c, impl_ans):
+    try:
+        return _nontrivial(c, impl_ans)
+    except (TypeError, ValueError) as e:
+        if _foreign_eq(e):
+            return True
+        raise
